@@ -20,12 +20,22 @@ def build():
     return h
 
 
+TARGET = 'T/#1'     # the root's second type parameter: every root is declared `<S: .., T: ..>(a: &X<S>) -> Option<X<T>>`
+
+
+def _is_cast_to_target(S, u):
+    """numcast(atom, "T/#1"): the scalar cast of a source component TO THE TARGET TYPE of the compound cast (a cast of the
+    same component to any other type - `<f64 as NumCast>::from(x)` used to sniff for NaN - answers a different question)"""
+    return (u[0] == 'a' and u[1] == 'numcast' and len(u[2]) == 2 and S.terms[u[2][0]][0] == 'v'
+            and S.terms[u[2][1]] == ['s', TARGET])
+
+
 def numcast_of(S, tid):
-    """term discr(numcast(atom)) -> atom name"""
+    """term discr(numcast(atom, target)) -> atom name"""
     t = S.terms[tid]
     if t[0] == 'a' and t[1] == 'discr':
         u = S.terms[t[2][0]]
-        if u[0] == 'a' and u[1] == 'numcast' and S.terms[u[2][0]][0] == 'v':
+        if _is_cast_to_target(S, u):
             return S.terms[u[2][0]][1]
     return None
 
@@ -66,7 +76,7 @@ def payload_of(S, tid):
         u = S.terms[t[2][0]]
         if u[0] == 'a' and u[1] == 'variant' and S.terms[u[2][1]] == ['i', '1']:
             w = S.terms[u[2][0]]
-            if w[0] == 'a' and w[1] == 'numcast' and S.terms[w[2][0]][0] == 'v':
+            if _is_cast_to_target(S, w):
                 return S.terms[w[2][0]][1]
     return None
 
